@@ -86,6 +86,9 @@ def norm_ddl_case(case):
         conv["pk"] = [(["tok", "table_name"] if (p[0] == "tok" and p[1] == "constraint_name") else p) for p in conv["pk"]]
     if not conv.get("ix"):
         conv["ix"] = [["lit", 2, 3], ["tok", "column_0_label"]]
+    if not any(p[0] == "lit" for p in conv["ix"]):
+        # an index must end up with a non-empty name (an unnamed Index is a user error whose exception type differs per dialect)
+        conv["ix"] = [["lit", 2, 3]] + conv["ix"]
     c["conv"] = conv
 
     def needs_name(kind):
